@@ -1477,4 +1477,613 @@ Proof.
   - rewrite !E_app, !E_cons, !E_grp, IH. reflexivity.
 Qed.
 
+
+(* ------------------------------------------------------------------ *)
+(* the fuel of the closures loop suffices *)
+Lemma find_close_length l : forall acc p after,
+  find_close l acc = Some (p, after) -> (length acc + length l = length p + S (length after))%nat.
+Proof.
+  intros acc p after H. apply find_close_spec in H. apply (f_equal (@length item)) in H.
+  rewrite !app_length, !rev_length in H. cbn [length] in H. exact H.
+Qed.
+Lemma closures_fuel_irrelevant_lemma f1 : forall f2 res l,
+  (length l < f1)%nat -> (length l < f2)%nat -> closures f1 res l = closures f2 res l.
+Proof.
+  induction f1 as [|f1 IH]; intros f2 res l H1 H2; [lia|].
+  destruct f2 as [|f2]; [lia|]. cbn [closures].
+  destruct l as [|x rest]; [reflexivity|]. cbn [length] in H1, H2.
+  assert (Hrest : closures f1 (x :: res) rest = closures f2 (x :: res) rest) by (apply IH; lia).
+  destruct (is_tok x s_pipe && starts_expr (hd_error res)); [|exact Hrest].
+  destruct (find_close rest []) as [[params_rev after]|] eqn:Hf; [|exact Hrest].
+  apply find_close_length in Hf. cbn [length] in Hf.
+  set (p' := match params_rev with y :: p' => if is_tok y s_comma then p' else params_rev | [] => [] end).
+  assert (Hp : (length p' <= length params_rev)%nat).
+  { subst p'. destruct params_rev as [|y q]; [lia|]. destruct (is_tok y s_comma); cbn [length]; lia. }
+  clearbody p'.
+  destruct after as [|b after'].
+  - apply IH; rewrite app_length, rev_length; cbn [length] in *; lia.
+  - destruct (single_expr_block b && _).
+    + apply IH; cbn [length] in *; lia.
+    + apply IH; rewrite app_length, rev_length; cbn [length] in *; lia.
+Qed.
+(* closures_run never reaches the out-of-fuel branch: any larger fuel gives the same result *)
+Lemma closures_run_fuel_lemma l k : closures_run l = closures (S (length l) + k) [] l.
+Proof. unfold closures_run. apply closures_fuel_irrelevant_lemma; lia. Qed.
+
+(* ------------------------------------------------------------------ *)
+(* the classes of a run of imports *)
+Lemma eqb_texts_spec a b : eqb_texts a b = true <-> a = b.
+Proof.
+  revert b; induction a as [|x a IH]; intros [|y b]; cbn [eqb_texts]; try (split; [discriminate|discriminate]).
+  - split; reflexivity.
+  - rewrite andb_true_iff, eqb_text_spec, IH. split; [intros [-> ->]; reflexivity|intros H; inversion H; auto].
+Qed.
+Lemma fold_insert_uniq_In l ls y : In y (fold_right insert_uniq ls l) <-> In y l \/ In y ls.
+Proof.
+  induction l as [|x l IH]; cbn [fold_right In]; [tauto|].
+  rewrite insert_uniq_In, IH. split; intros H; [destruct H as [-> |[H|H]]|destruct H as [[<- |H]|H]]; auto.
+Qed.
+Definition leaves_of (cs : list (list text * list text)) (h : list text) (s : text) : Prop :=
+  exists ls, In (h, ls) cs /\ In s ls.
+Lemma add_class_keys h l cs h' :
+  In h' (map fst (add_class h l cs)) <-> In h' (map fst cs) \/ h' = h.
+Proof.
+  induction cs as [|[h0 ls0] cs IH]; cbn [add_class map fst In].
+  - split; [intros [<- |[]]; auto|intros [[]| ->]; auto].
+  - destruct (eqb_texts h0 h) eqn:He; cbn [map fst In].
+    + apply eqb_texts_spec in He. subst h0. split; [intros [H|H]; auto|intros [[H|H]|H]; auto].
+    + rewrite IH. split; intros H; tauto.
+Qed.
+Lemma add_class_nodup h l cs : NoDup (map fst cs) -> NoDup (map fst (add_class h l cs)).
+Proof.
+  induction cs as [|[h0 ls0] cs IH]; cbn [add_class map fst]; intros H.
+  - constructor; [intros []|constructor].
+  - inversion H as [|? ? Hn Hd]; subst. destruct (eqb_texts h0 h) eqn:He; cbn [map fst].
+    + constructor; assumption.
+    + constructor; [|apply IH; exact Hd].
+      rewrite add_class_keys. intros [Hi|Hi]; [contradiction|].
+      subst h0. assert (Ht : eqb_texts h h = true) by (apply eqb_texts_spec; reflexivity). congruence.
+Qed.
+Lemma add_class_leaves h l cs : NoDup (map fst cs) -> forall h' s,
+  leaves_of (add_class h l cs) h' s <-> leaves_of cs h' s \/ (h' = h /\ In s l).
+Proof.
+  unfold leaves_of. induction cs as [|[h0 ls0] cs IH]; cbn [add_class map fst]; intros Hd h' s.
+  - split.
+    + intros [ls [[H|[]] Hs]]. inversion H; subst. apply (proj1 (sort_uniq_In _ _)) in Hs. auto.
+    + intros [[ls [[] _]]|[-> Hs]]. exists (sort_uniq l). split; [left; reflexivity|apply (proj2 (sort_uniq_In _ _)); exact Hs].
+  - inversion Hd as [|? ? Hn Hd']; subst. destruct (eqb_texts h0 h) eqn:He.
+    + apply eqb_texts_spec in He. subst h0. split.
+      * intros [ls [[H|H] Hs]].
+        -- inversion H; subst. apply fold_insert_uniq_In in Hs. destruct Hs as [Hs|Hs]; [right; auto|].
+           left. exists ls0. split; [left; reflexivity|exact Hs].
+        -- left. exists ls. split; [right; exact H|exact Hs].
+      * intros [[ls [[H|H] Hs]]|[-> Hs]].
+        -- inversion H; subst. exists (fold_right insert_uniq ls l). split; [left; reflexivity|].
+           apply fold_insert_uniq_In. right. exact Hs.
+        -- exists ls. split; [right; exact H|exact Hs].
+        -- exists (fold_right insert_uniq ls0 l). split; [left; reflexivity|]. apply fold_insert_uniq_In. left. exact Hs.
+    + split.
+      * intros [ls [[H|H] Hs]].
+        -- inversion H; subst. left. exists ls. split; [left; reflexivity|exact Hs].
+        -- destruct (proj1 (IH Hd' h' s) (ex_intro _ ls (conj H Hs))) as [[ls' [H' Hs']]|H'].
+           ++ left. exists ls'. split; [right; exact H'|exact Hs'].
+           ++ right. exact H'.
+      * intros [[ls [[H|H] Hs]]|H].
+        -- inversion H; subst. exists ls. split; [left; reflexivity|exact Hs].
+        -- destruct (proj2 (IH Hd' h' s) (or_introl (ex_intro _ ls (conj H Hs)))) as [ls' [H' Hs']].
+           exists ls'. split; [right; exact H'|exact Hs'].
+        -- destruct (proj2 (IH Hd' h' s) (or_intror H)) as [ls' [H' Hs']].
+           exists ls'. split; [right; exact H'|exact Hs'].
+Qed.
+
+(* the invariant of the fold in flush_run *)
+Definition ClassInv (o : opts) (sts : list run_entry) (cs : list (list text * list text)) : Prop :=
+  NoDup (map fst cs) /\
+  (forall h, In h (map fst cs) <-> exists e, In e sts /\ entry_head e = h) /\
+  (forall h s, leaves_of cs h s <-> exists e, In e sts /\ entry_head e = h /\ In s (entry_leaves o e)).
+Definition class_step (o : opts) (cs : list (list text * list text)) (e : run_entry) :=
+  let '(head, body, _) := e in
+  add_class (flatten head) (parse_use (o_edition2015 o) (removelast (tl body))) cs.
+Lemma class_step_inv o sts cs e : ClassInv o sts cs -> ClassInv o (sts ++ [e]) (class_step o cs e).
+Proof.
+  intros (Hd & Hk & Hl). destruct e as [[head body] st]. unfold class_step.
+  split; [apply add_class_nodup; exact Hd|]. split.
+  - intros h. rewrite add_class_keys, Hk. split.
+    + intros [[e [He Hh]]| ->]; [exists e; split; [apply in_or_app; left; exact He|exact Hh]|].
+      exists (head, body, st). split; [apply in_or_app; right; left; reflexivity|reflexivity].
+    + intros [e [He Hh]]. apply in_app_or in He. destruct He as [He|[<- |[]]]; [left; exists e; auto|right; symmetry; exact Hh].
+  - intros h s. rewrite (add_class_leaves _ _ _ Hd), Hl. split.
+    + intros [[e [He [Hh Hs]]]|[-> Hs]]; [exists e; split; [apply in_or_app; left; exact He|auto]|].
+      exists (head, body, st). split; [apply in_or_app; right; left; reflexivity|]. split; [reflexivity|exact Hs].
+    + intros [e [He [Hh Hs]]]. apply in_app_or in He. destruct He as [He|[<- |[]]]; [left; exists e; auto|].
+      right. split; [symmetry; exact Hh|exact Hs].
+Qed.
+Lemma class_fold_inv o l : forall sts cs, ClassInv o sts cs -> ClassInv o (sts ++ l) (fold_left (class_step o) l cs).
+Proof.
+  induction l as [|e l IH]; intros sts cs H; cbn [fold_left]; [rewrite app_nil_r; exact H|].
+  replace (sts ++ e :: l) with ((sts ++ [e]) ++ l) by (rewrite <- app_assoc; reflexivity).
+  apply IH. apply class_step_inv. exact H.
+Qed.
+Lemma insert_class_perm c l : Permutation (insert_class c l) (c :: l).
+Proof.
+  induction l as [|y l IH]; cbn [insert_class]; [apply Permutation_refl|].
+  destruct (texts_leb (fst c) (fst y)); [apply Permutation_refl|].
+  eapply Permutation_trans; [apply perm_skip; exact IH|apply perm_swap].
+Qed.
+Lemma sort_classes_perm l : Permutation (fold_right insert_class [] l) l.
+Proof.
+  induction l as [|x l IH]; cbn [fold_right]; [constructor|].
+  eapply Permutation_trans; [apply insert_class_perm|apply perm_skip; exact IH].
+Qed.
+Lemma nodup_fst_unique {A B : Type} (cs : list (A * B)) h a b :
+  NoDup (map fst cs) -> In (h, a) cs -> In (h, b) cs -> a = b.
+Proof.
+  induction cs as [|[h0 x] cs IH]; cbn [map fst In]; intros Hd Ha Hb; [contradiction|].
+  inversion Hd as [|? ? Hn Hd']; subst.
+  destruct Ha as [Ha|Ha], Hb as [Hb|Hb].
+  - congruence.
+  - inversion Ha; subst. exfalso. apply Hn. apply in_map_iff. exists (h, b). auto.
+  - inversion Hb; subst. exfalso. apply Hn. apply in_map_iff. exists (h, a). auto.
+  - apply IH; assumption.
+Qed.
+Lemma flush_run_use_spec o sts :
+  exists cs, flush_run o (Some (RUse, sts)) = map (fun c => Tok (use_string c)) cs /\ UseClasses o (rev sts) cs.
+Proof.
+  cbn [flush_run].
+  set (classes := fold_left _ (rev sts) []).
+  assert (Hinv : ClassInv o (rev sts) classes).
+  { subst classes. apply (class_fold_inv o (rev sts) [] []).
+    split; [constructor|]. split.
+    - intros h. split; [intros []|intros [e [[] _]]].
+    - intros h s. split; [intros [ls [[] _]]|intros [e [[] _]]]. }
+  clearbody classes.
+  exists (fold_right insert_class [] classes). split; [reflexivity|].
+  pose proof (sort_classes_perm classes) as Hp.
+  destruct Hinv as (Hd & Hk & Hl).
+  assert (Hd' : NoDup (map fst (fold_right insert_class [] classes))).
+  { eapply Permutation_NoDup; [apply Permutation_sym, Permutation_map; exact Hp|exact Hd]. }
+  split; [exact Hd'|]. split.
+  - intros h. rewrite <- Hk. split; apply Permutation_in; [apply Permutation_map; exact Hp|apply Permutation_sym, Permutation_map; exact Hp].
+  - intros h ls Hin s. rewrite <- Hl. unfold leaves_of. split.
+    + intros Hs. exists ls. split; [eapply Permutation_in; [exact Hp|exact Hin]|exact Hs].
+    + intros [ls' [Hin' Hs]].
+      assert (ls' = ls).
+      { eapply nodup_fst_unique; [exact Hd'| |exact Hin]. eapply Permutation_in; [apply Permutation_sym; exact Hp|exact Hin']. }
+      subst ls'. exact Hs.
+Qed.
+
+
+(* ------------------------------------------------------------------ *)
+(* reorder_runs meets its declarative specification *)
+Definition cur_wf (cur : option run) : Prop :=
+  match cur with None => True | Some (k, sts) => sts <> [] /\ Forall (entry_kind k) sts end.
+Definition cur_stmts (cur : option run) : list (list item) :=
+  match cur with None => [] | Some (_, sts) => map snd (rev sts) end.
+Definition segs_of (cur : option run) (out : list item) : list (list (list item) * list item) :=
+  match cur with None => [] | Some _ => [(cur_stmts cur, out)] end.
+
+Lemma rkind_eqb_true a b : rkind_eqb a b = true -> a = b.
+Proof. destruct a, b; cbn [rkind_eqb]; intros H; try discriminate; reflexivity. Qed.
+Lemma rev_not_nil {A : Type} (l : list A) : l <> [] -> rev l <> [].
+Proof. destruct l as [|x l]; [intros H; contradiction H; reflexivity|]. cbn [rev]. intros _ H. apply app_eq_nil in H. destruct H; discriminate. Qed.
+
+Lemma flush_run_spec o k sts : sts <> [] -> Forall (entry_kind k) sts ->
+  SegSpec o (map snd (rev sts)) (flush_run o (Some (k, sts))).
+Proof.
+  intros Hne HF. destruct k.
+  - destruct (flush_run_use_spec o sts) as [cs [Heq Hcs]].
+    refine (eq_ind_r (fun out => SegSpec o (map snd (rev sts)) out) _ Heq).
+    apply Seg_use; [apply rev_not_nil; exact Hne|apply Forall_rev; exact HF|exact Hcs].
+  - apply (Seg_items o RMod (rev sts)); [discriminate|apply rev_not_nil; exact Hne|apply Forall_rev; exact HF|].
+    apply flush_run_items_perm. discriminate.
+  - apply (Seg_items o RExtern (rev sts)); [discriminate|apply rev_not_nil; exact Hne|apply Forall_rev; exact HF|].
+    apply flush_run_items_perm. discriminate.
+Qed.
+Lemma flush_segs_spec o cur : cur_wf cur ->
+  Forall (fun sg => SegSpec o (fst sg) (snd sg)) (segs_of cur (flush_run o cur))
+  /\ concat (map fst (segs_of cur (flush_run o cur))) = cur_stmts cur
+  /\ concat (map snd (segs_of cur (flush_run o cur))) = flush_run o cur.
+Proof.
+  destruct cur as [[k sts]|]; cbn [cur_wf segs_of cur_stmts].
+  - intros [Hne HF]. split; [constructor; [apply flush_run_spec; assumption|constructor]|].
+    cbn [map concat fst snd]. rewrite !app_nil_r. split; reflexivity.
+  - intros _. split; [constructor|split; reflexivity].
+Qed.
+
+Lemma runs_spec o stmts : forall cur, cur_wf cur ->
+  exists segs, concat (map fst segs) = cur_stmts cur ++ stmts /\
+               runs o cur stmts = concat (map snd segs) /\
+               Forall (fun sg => SegSpec o (fst sg) (snd sg)) segs.
+Proof.
+  induction stmts as [|st r IH]; intros cur Hwf; cbn [runs].
+  - destruct (flush_segs_spec o cur Hwf) as (H1 & H2 & H3).
+    exists (segs_of cur (flush_run o cur)). rewrite app_nil_r. split; [exact H2|split; [symmetry; exact H3|exact H1]].
+  - destruct (stmt_kind st) as [[[k head] body]|] eqn:Hk.
+    + assert (He : entry_kind k (head, body, st)) by exact Hk.
+      destruct cur as [[k0 sts]|].
+      * destruct Hwf as [Hne HF]. destruct (rkind_eqb k0 k) eqn:Hkk.
+        -- apply rkind_eqb_true in Hkk. subst k0.
+           destruct (IH (Some (k, (head, body, st) :: sts))) as [segs (H1 & H2 & H3)].
+           { split; [discriminate|constructor; assumption]. }
+           exists segs. split; [|split; assumption].
+           rewrite H1. cbn [cur_stmts rev]. rewrite map_app. cbn [map snd]. rewrite <- app_assoc. reflexivity.
+        -- destruct (IH (Some (k, [(head, body, st)]))) as [segs (H1 & H2 & H3)].
+           { split; [discriminate|constructor; [exact He|constructor]]. }
+           destruct (flush_segs_spec o (Some (k0, sts)) (conj Hne HF)) as (F1 & F2 & F3).
+           exists (segs_of (Some (k0, sts)) (flush_run o (Some (k0, sts))) ++ segs).
+           rewrite !map_app, !concat_app, F2, F3, H1, H2. split; [|split; [reflexivity|apply Forall_app; split; assumption]].
+           cbn [cur_stmts rev map snd app]. reflexivity.
+      * destruct (IH (Some (k, [(head, body, st)]))) as [segs (H1 & H2 & H3)].
+        { split; [discriminate|constructor; [exact He|constructor]]. }
+        exists segs. split; [|split; assumption]. rewrite H1. reflexivity.
+    + destruct (IH None I) as [segs (H1 & H2 & H3)].
+      destruct (flush_segs_spec o cur Hwf) as (F1 & F2 & F3).
+      exists (segs_of cur (flush_run o cur) ++ ([st], st) :: segs).
+      rewrite !map_app, !concat_app. cbn [map concat fst snd]. rewrite F2, F3, H1, H2. cbn [cur_stmts app].
+      split; [reflexivity|]. split; [reflexivity|].
+      apply Forall_app. split; [exact F1|]. constructor; [apply Seg_keep; exact Hk|exact H3].
+Qed.
+Lemma reorder_runs_level o seq : LevelSpec o seq (reorder_runs o seq).
+Proof.
+  unfold reorder_runs. destruct (stmts_split [] seq) as [stmts tail] eqn:Hs.
+  apply stmts_split_concat in Hs. cbn [rev app] in Hs.
+  destruct (runs_spec o stmts None I) as [segs (H1 & H2 & H3)]. cbn [cur_stmts app] in H1.
+  exists segs, tail. rewrite H1, <- H2. split; [exact Hs|split; [reflexivity|exact H3]].
+Qed.
+Lemma norm_tree_item_spec o x : ItemSpec o x (norm_tree_item o x).
+Proof.
+  induction x as [s|d its IH] using item_ind'; cbn [norm_tree_item]; [constructor|].
+  apply IS_grp. apply TS with (seq' := map (norm_tree_item o) its); [|apply reorder_runs_level].
+  induction IH as [|y l Hy _ IHl]; cbn [map]; constructor; assumption.
+Qed.
+Lemma norm_tree_spec o seq : TreeSpec o seq (norm_tree o seq).
+Proof.
+  unfold norm_tree. apply TS with (seq' := map (norm_tree_item o) seq); [|apply reorder_runs_level].
+  induction seq as [|x r IH]; cbn [map]; constructor; [apply norm_tree_item_spec|exact IH].
+Qed.
+
+(* ------------------------------------------------------------------ *)
+(* the atoms outside the runs stay, in order *)
+Lemma Sub_trans {A : Type} (a b c : list A) : Sub a b -> Sub b c -> Sub a c.
+Proof.
+  intros H1 H2. revert a H1. induction H2 as [|x l1 l2 _ IH|x l1 l2 _ IH]; intros a H1.
+  - exact H1.
+  - inversion H1 as [|y a1 b1 Ha|y a1 b1 Ha]; subst; [apply Sub_keep|apply Sub_skip]; apply IH; exact Ha.
+  - apply Sub_skip. apply IH. exact H1.
+Qed.
+Lemma Sub_flat_map {A B : Type} (f : A -> list B) a b : Sub a b -> Sub (flat_map f a) (flat_map f b).
+Proof.
+  intros H. induction H as [|x l1 l2 _ IH|x l1 l2 _ IH]; cbn [flat_map].
+  - constructor.
+  - apply Sub_app; [apply Sub_refl|exact IH].
+  - apply Sub_skip_app. exact IH.
+Qed.
+Lemma Sub_filter {A : Type} (p : A -> bool) a b : Sub a b -> Sub (filter p a) (filter p b).
+Proof.
+  intros H. induction H as [|x l1 l2 _ IH|x l1 l2 _ IH]; cbn [filter].
+  - constructor.
+  - destruct (p x); [apply Sub_keep|]; exact IH.
+  - destruct (p x); [apply Sub_skip|]; exact IH.
+Qed.
+Lemma Sub_ess_md a b : Sub a b -> Sub (ess_md a) (ess_md b).
+Proof. intros H. unfold ess_md, unglue. apply Sub_filter, Sub_flat_map. exact H. Qed.
+
+Definition SubOut (x : item) (out : list text) : Prop := Sub out (flatten_item x).
+Lemma concat_outs_sub xs outs : Forall2 SubOut xs outs -> Sub (concat outs) (flatten xs).
+Proof.
+  intros H. induction H as [|x out xs outs Hx _ IH]; [constructor|].
+  cbn [concat]. unfold flatten in *. cbn [flat_map]. apply Sub_app; assumption.
+Qed.
+Lemma cut_emit_sub_concat stmts : forall outs, Sub (cut_emit stmts outs) (concat outs).
+Proof.
+  induction stmts as [|st r IH]; intros outs; cbn [cut_emit]; [apply Sub_refl|].
+  cbv zeta. rewrite <- (firstn_skipn (length st) outs) at 3. rewrite concat_app.
+  destruct (nonrun st); [apply Sub_app; [apply Sub_refl|apply IH]|apply Sub_skip_app; apply IH].
+Qed.
+Lemma Forall2_len {A B : Type} (R : A -> B -> Prop) l1 l2 : Forall2 R l1 l2 -> length l1 = length l2.
+Proof. intros H. induction H; cbn [length]; [reflexivity|f_equal; assumption]. Qed.
+Lemma cut_emit_kept stmts : forall tail outs, Forall2 SubOut (concat stmts ++ tail) outs ->
+  Sub (cut_emit stmts outs) (flatten (concat (filter nonrun stmts) ++ tail)).
+Proof.
+  induction stmts as [|st r IH]; intros tail outs HF; cbn [cut_emit concat filter app].
+  - apply concat_outs_sub. exact HF.
+  - cbv zeta. cbn [concat] in HF. rewrite <- app_assoc in HF.
+    apply Forall2_app_inv_l in HF. destruct HF as [o1 [o2 [H1 [H2 ->]]]].
+    pose proof (Forall2_len _ _ _ H1) as Hl.
+    rewrite Hl, firstn_app, Nat.sub_diag, firstn_all, skipn_app, Nat.sub_diag, skipn_all. cbn [firstn skipn]. rewrite app_nil_r. cbn [app].
+    destruct (nonrun st).
+    + cbn [concat]. rewrite <- app_assoc. unfold flatten. rewrite flat_map_app. apply Sub_app.
+      * apply (concat_outs_sub st o1 H1).
+      * apply IH. exact H2.
+    + apply IH. exact H2.
+Qed.
+
+Lemma outside_item_sub_in o x : SubOut x (outside_item o x).
+Proof.
+  unfold SubOut. induction x as [s|d its IH] using item_ind'; cbn [outside_item flatten_item]; [apply Sub_refl|].
+  apply Sub_keep. apply Sub_app; [|apply Sub_refl].
+  eapply Sub_trans; [apply cut_emit_sub_concat|].
+  apply (concat_outs_sub its). induction IH as [|y l Hy _ IHl]; cbn [map]; constructor; assumption.
+Qed.
+Lemma outside_sub_in o seq : Sub (outside o seq) (flatten seq).
+Proof.
+  unfold outside. eapply Sub_trans; [apply cut_emit_sub_concat|].
+  apply (concat_outs_sub seq). induction seq as [|x r IH]; cbn [map]; constructor; [apply outside_item_sub_in|exact IH].
+Qed.
+Lemma level_outside o seq' outs : Forall2 SubOut seq' outs ->
+  Sub (cut_emit (fst (stmts_split [] seq')) outs) (flatten (reorder_runs o seq')).
+Proof.
+  intros HF. destruct (stmts_split [] seq') as [stmts tail] eqn:Hs. cbn [fst].
+  destruct (reorder_runs_outside_lemma o seq' stmts tail Hs) as [Hc Hsub].
+  eapply Sub_trans; [apply (cut_emit_kept stmts tail); rewrite <- Hc; exact HF|].
+  unfold flatten. apply Sub_flat_map. exact Hsub.
+Qed.
+Lemma outside_item_sub_out o x : SubOut (norm_tree_item o x) (outside_item o x).
+Proof.
+  unfold SubOut. induction x as [s|d its IH] using item_ind'; cbn [outside_item norm_tree_item flatten_item]; [apply Sub_refl|].
+  apply Sub_keep. apply Sub_app; [|apply Sub_refl].
+  apply level_outside. induction IH as [|y l Hy _ IHl]; cbn [map]; constructor; assumption.
+Qed.
+Lemma outside_sub_out o seq : Sub (outside o seq) (flatten (norm_tree o seq)).
+Proof.
+  unfold outside, norm_tree. apply level_outside.
+  induction seq as [|x r IH]; cbn [map]; constructor; [apply outside_item_sub_out|exact IH].
+Qed.
+
+Lemma norm_preserves_essential_lemma o ts :
+  ess_md (flatten (post_core_items o ts)) = ess_md (atoms_of o ts) /\
+  Sub (outside o (post_core_items o ts)) (flatten (post_core_items o ts)) /\
+  Sub (outside o (post_core_items o ts)) (norm o ts) /\
+  TreeSpec o (post_core_items o ts) (norm_items o ts).
+Proof.
+  split; [exact (norm_noreorder_preserves o ts)|].
+  split; [apply outside_sub_in|].
+  split; [apply outside_sub_out|apply norm_tree_spec].
+Qed.
+Lemma norm_outside_essential_lemma o ts :
+  Sub (ess_md (outside o (post_core_items o ts))) (ess_md (atoms_of o ts)) /\
+  Sub (ess_md (outside o (post_core_items o ts))) (ess_md (norm o ts)).
+Proof.
+  destruct (norm_preserves_essential_lemma o ts) as (H1 & H2 & H3 & _).
+  split; [rewrite <- H1|]; apply Sub_ess_md; assumption.
+Qed.
+
+
+(* ------------------------------------------------------------------ *)
+(* P3 for the whole pipeline *)
+Lemma Equiv_EquivF o c a b : Equiv c a b -> EquivF o c a b.
+Proof.
+  intros H. induction H as [c a|c a b _ IH|c a b e _ IH1 _ IH2|c a b Hs|c pre d its its' post Hc Hm _ IH
+                            |c pre d its its' post Hc Hm _ IH|c pre d1 m d2 body body' post Hc H1 H2 _ IH].
+  - apply EF_refl.
+  - apply EF_sym. exact IH.
+  - eapply EF_trans; [exact IH1|exact IH2].
+  - apply EF_step. apply SF_core. exact Hs.
+  - apply EF_nest; assumption.
+  - apply EF_macro_body; assumption.
+  - apply EF_macro_arm; assumption.
+Qed.
+
+(* transforming the contents of the groups of a level, left to right *)
+Section MapSafe.
+Variable o : opts.
+Variable f : item -> item.
+Hypothesis f_tok : forall t, f (Tok t) = Tok t.
+Definition item_sound (x : item) : Prop :=
+  forall d its, x = Grp d its -> msafe f x -> exists its', f x = Grp d its' /\ EquivF o (CIn d) its its'.
+Lemma map_safe_equiv c : c <> CMacro -> forall l P,
+  Forall item_sound l -> safe_loop (msafe f) f P l -> EquivF o c (rev P ++ l) (rev P ++ map f l).
+Proof.
+  intros Hc. induction l as [|x r IH]; intros P HF Hs; [apply EF_refl|].
+  inversion HF as [|? ? Hx HF']; subst. cbn [safe_loop] in Hs. destruct Hs as [Hs1 Hs2].
+  cbn [map]. specialize (IH (f x :: P) HF' Hs2). rewrite !rev_cons_app in IH.
+  eapply EF_trans; [|exact IH].
+  destruct x as [t|d its].
+  - rewrite f_tok. apply EF_refl.
+  - destruct (macro_rules_head P) eqn:Hm.
+    + rewrite Hs1. apply EF_refl.
+    + destruct (Hx d its eq_refl Hs1) as [its' [-> He]].
+      apply EF_nest; [exact Hc|rewrite macro_def_pos_rev; exact Hm|exact He].
+Qed.
+End MapSafe.
+
+(* merge_derives *)
+Lemma md_loop_map rec seq : forall out, md_loop rec out seq = md_loop (fun x => x) out (map rec seq).
+Proof.
+  induction seq as [|x r IH]; intros out; cbn [md_loop map]; [reflexivity|]. cbv zeta.
+  destruct (rec x) as [t|[| |] [|dv [|[t|d2 b] [|z its]]]]; try apply IH.
+  destruct out as [|h1 [|[t|[| |] [|dv0 [|[t|d0 a] [|z its3]]]] [|h3 out']]]; try apply IH.
+  destruct (is_tok dv s_derive && is_tok h1 s_hash && is_tok dv0 s_derive && is_tok h3 s_hash); apply IH.
+Qed.
+Lemma md_level_equiv o c seq : c <> CMacro -> forall out,
+  EquivF o c (rev out ++ seq) (md_loop (fun x => x) out seq).
+Proof.
+  intros Hc. induction seq as [|x rest IH]; intros out; cbn [md_loop]; [rewrite app_nil_r; apply EF_refl|].
+  cbv zeta.
+  assert (Hdef : EquivF o c (rev out ++ x :: rest) (md_loop (fun x => x) (x :: out) rest)).
+  { rewrite <- rev_cons_app. apply IH. }
+  destruct x as [t|d its]; [exact Hdef|].
+  destruct d; try exact Hdef.
+  destruct its as [|dv [|[t|d2 b] [|z its]]]; try exact Hdef.
+  destruct out as [|h1 [|[t|d3 its3] out1]]; try exact Hdef.
+  destruct d3; try exact Hdef.
+  destruct its3 as [|dv0 [|[t|d4 a] [|z its3]]]; try exact Hdef.
+  destruct out1 as [|h3 out']; try exact Hdef.
+  destruct (is_tok dv s_derive && is_tok h1 s_hash && is_tok dv0 s_derive && is_tok h3 s_hash) eqn:Hcnd; [|exact Hdef].
+  apply andb_true_iff in Hcnd. destruct Hcnd as [Hcnd H4]. apply andb_true_iff in Hcnd. destruct Hcnd as [Hcnd H3].
+  apply andb_true_iff in Hcnd. destruct Hcnd as [H1 H2].
+  apply is_tok_true in H1. apply is_tok_true in H2. apply is_tok_true in H3. apply is_tok_true in H4. subst dv h1 dv0 h3.
+  eapply EF_trans; [|apply IH].
+  cbn [rev]. rewrite <- !app_assoc. cbn [app].
+  apply EF_step. apply SF_merge_derives. exact Hc.
+Qed.
+Lemma md_item_sound o x : item_sound o md_item x.
+Proof.
+  induction x as [s|d its IH] using item_ind'; intros d0 its0 Hx Hs; [discriminate|].
+  inversion Hx; subst d0 its0. cbn [md_item]. eexists. split; [reflexivity|].
+  rewrite md_loop_map.
+  eapply EF_trans.
+  - apply (map_safe_equiv o md_item (fun t => eq_refl) (CIn d) ltac:(discriminate) its [] IH Hs).
+  - apply (md_level_equiv o (CIn d) _ ltac:(discriminate) []).
+Qed.
+Lemma merge_derives_equiv o c seq : c <> CMacro -> msafe_seq md_item seq -> EquivF o c seq (merge_derives seq).
+Proof.
+  intros Hc Hs. unfold merge_derives. rewrite md_loop_map.
+  eapply EF_trans.
+  - apply (map_safe_equiv o md_item (fun t => eq_refl) c Hc seq []); [|exact Hs].
+    apply Forall_forall. intros x _. apply md_item_sound.
+  - apply (md_level_equiv o c _ Hc []).
+Qed.
+
+(* reorder_runs *)
+Lemma flush_run_equiv o c P cur Q : c <> CMacro -> cur_wf cur ->
+  EquivF o c (P ++ concat (cur_stmts cur) ++ Q) (P ++ flush_run o cur ++ Q).
+Proof.
+  intros Hc Hwf. destruct cur as [[k sts]|]; [|apply EF_refl].
+  destruct Hwf as [Hne HF]. cbn [cur_stmts].
+  pose proof (rev_not_nil _ Hne) as Hne'. pose proof (Forall_rev HF) as HF'.
+  apply EF_step. rewrite <- (rev_involutive sts) at 2.
+  destruct k.
+  - apply SF_import_regroup; assumption.
+  - apply SF_reorder_items; [exact Hc|discriminate|exact Hne'|exact HF'].
+  - apply SF_reorder_items; [exact Hc|discriminate|exact Hne'|exact HF'].
+Qed.
+Lemma runs_equiv o c Q : c <> CMacro -> forall stmts P cur, cur_wf cur ->
+  EquivF o c (P ++ concat (cur_stmts cur) ++ concat stmts ++ Q) (P ++ runs o cur stmts ++ Q).
+Proof.
+  intros Hc. induction stmts as [|st r IH]; intros P cur Hwf; cbn [runs concat].
+  - cbn [app]. apply flush_run_equiv; assumption.
+  - destruct (stmt_kind st) as [[[k head] body]|] eqn:Hk.
+    + assert (He : entry_kind k (head, body, st)) by exact Hk.
+      assert (Hnew : cur_wf (Some (k, [(head, body, st)]))).
+      { split; [discriminate|constructor; [exact He|constructor]]. }
+      assert (Hone : forall P', EquivF o c (P' ++ st ++ concat r ++ Q) (P' ++ runs o (Some (k, [(head, body, st)])) r ++ Q)).
+      { intros P'. specialize (IH P' _ Hnew). cbn [cur_stmts rev map snd app concat] in IH. rewrite app_nil_r in IH. exact IH. }
+      destruct cur as [[k0 sts]|].
+      * destruct Hwf as [Hne HF]. destruct (rkind_eqb k0 k) eqn:Hkk.
+        -- apply rkind_eqb_true in Hkk. subst k0.
+           specialize (IH P (Some (k, (head, body, st) :: sts))).
+           cbn [cur_stmts rev] in IH. rewrite map_app, concat_app in IH. cbn [map snd concat] in IH.
+           rewrite app_nil_r, <- !app_assoc in IH. rewrite <- !app_assoc. apply IH.
+           split; [discriminate|constructor; assumption].
+        -- eapply EF_trans; [apply (flush_run_equiv o c P (Some (k0, sts)) _ Hc (conj Hne HF))|].
+           rewrite <- !app_assoc. rewrite !(app_assoc P). apply Hone.
+      * cbn [cur_stmts concat app]. rewrite <- app_assoc. apply Hone.
+    + eapply EF_trans; [apply (flush_run_equiv o c P cur _ Hc Hwf)|].
+      rewrite <- !app_assoc. rewrite !(app_assoc P), !(app_assoc (P ++ flush_run o cur)).
+      specialize (IH ((P ++ flush_run o cur) ++ st) None I). cbn [cur_stmts concat app] in IH. exact IH.
+Qed.
+Lemma reorder_runs_equiv o c seq : c <> CMacro -> EquivF o c seq (reorder_runs o seq).
+Proof.
+  intros Hc. unfold reorder_runs. destruct (stmts_split [] seq) as [stmts tail] eqn:Hs.
+  apply stmts_split_concat in Hs. cbn [rev app] in Hs. rewrite Hs.
+  apply (runs_equiv o c tail Hc stmts [] None I).
+Qed.
+Lemma norm_tree_item_sound o x : item_sound o (norm_tree_item o) x.
+Proof.
+  induction x as [s|d its IH] using item_ind'; intros d0 its0 Hx Hs; [discriminate|].
+  inversion Hx; subst d0 its0. cbn [norm_tree_item]. eexists. split; [reflexivity|].
+  eapply EF_trans.
+  - apply (map_safe_equiv o (norm_tree_item o) (fun t => eq_refl) (CIn d) ltac:(discriminate) its [] IH Hs).
+  - apply reorder_runs_equiv. discriminate.
+Qed.
+Lemma norm_tree_equiv o c seq : c <> CMacro -> msafe_seq (norm_tree_item o) seq -> EquivF o c seq (norm_tree o seq).
+Proof.
+  intros Hc Hs. unfold norm_tree.
+  eapply EF_trans.
+  - apply (map_safe_equiv o (norm_tree_item o) (fun t => eq_refl) c Hc seq []); [|exact Hs].
+    apply Forall_forall. intros x _. apply norm_tree_item_sound.
+  - apply reorder_runs_equiv. exact Hc.
+Qed.
+
+Lemma norm_items_equiv o ts : post_safe o ts -> EquivF o CTop (tree o (significant ts)) (norm_items o ts).
+Proof.
+  intros [Hmd Hnt].
+  assert (H1 : EquivF o CTop (tree o (significant ts)) (post_core_items o ts)).
+  { unfold post_core_items, norm_core_items in *.
+    eapply EF_trans; [apply Equiv_EquivF; apply (norm_seq_equiv_lemma o None)|].
+    destruct (o_merge_derives o); [|apply EF_refl].
+    apply merge_derives_equiv; [discriminate|apply Hmd; reflexivity]. }
+  eapply EF_trans; [exact H1|].
+  change (norm_items o ts) with (norm_tree o (post_core_items o ts)).
+  apply norm_tree_equiv; [discriminate|exact Hnt].
+Qed.
+Lemma norm_sound_lemma o a b : post_safe o a -> post_safe o b -> norm_items o a = norm_items o b ->
+  EquivF o CTop (tree o (significant a)) (tree o (significant b)).
+Proof.
+  intros Ha Hb H. eapply EF_trans; [apply norm_items_equiv; exact Ha|]. rewrite H.
+  apply EF_sym. apply norm_items_equiv. exact Hb.
+Qed.
+(* two runs of imports with the same canonical form *)
+Lemma import_regroup_lemma o c pre (sts1 sts2 : list run_entry) post :
+  c <> CMacro -> sts1 <> [] -> sts2 <> [] -> Forall (entry_kind RUse) sts1 -> Forall (entry_kind RUse) sts2 ->
+  flush_run o (Some (RUse, rev sts1)) = flush_run o (Some (RUse, rev sts2)) ->
+  EquivF o c (pre ++ concat (map snd sts1) ++ post) (pre ++ concat (map snd sts2) ++ post).
+Proof.
+  intros Hc H1 H2 F1 F2 He.
+  eapply EF_trans; [apply EF_step; apply SF_import_regroup; assumption|]. rewrite He.
+  apply EF_sym. apply EF_step. apply SF_import_regroup; assumption.
+Qed.
+
+
+(* ------------------------------------------------------------------ *)
+(* witnesses of what is FALSE of the model (token streams as the harness lexer gives them, white space dropped) *)
+Definition o_default : opts := mkOpts true true false false true true false.
+(* /// x pub use a; *)
+Definition w_doc_a : list tok :=
+  [(Kdlo, [47; 47; 47; 32; 120; 32; 112; 117; 98]); (Kid, [117; 115; 101]); (Kid, [97]); (Kp, [59])].
+(* /// x pub use a; *)
+Definition w_doc_b : list tok :=
+  [(Kdlo, [47; 47; 47; 32; 120]); (Kid, [112; 117; 98]); (Kid, [117; 115; 101]); (Kid, [97]); (Kp, [59])].
+(* use a; use a; *)
+Definition w_dup_a : list tok :=
+  [(Kid, [117; 115; 101]); (Kid, [97]); (Kp, [59]); (Kid, [117; 115; 101]); (Kid, [97]); (Kp, [59])].
+(* use a; *)
+Definition w_dup_b : list tok :=
+  [(Kid, [117; 115; 101]); (Kid, [97]); (Kp, [59])].
+(* macro_rules! m { (#[derive(A)] #[derive(B)] $i:item) => { $i }; } *)
+Definition w_mdm_a : list tok :=
+  [(Kid, [109; 97; 99; 114; 111; 95; 114; 117; 108; 101; 115]); (Kp, [33]); (Kid, [109]); (Kp, [123]); (Kp, [40]); (Kp, [35]); (Kp, [91]); (Kid, [100; 101; 114; 105; 118; 101]); (Kp, [40]); (Kid, [65]); (Kp, [41]); (Kp, [93]); (Kp, [35]); (Kp, [91]); (Kid, [100; 101; 114; 105; 118; 101]); (Kp, [40]); (Kid, [66]); (Kp, [41]); (Kp, [93]); (Kp, [36]); (Kid, [105]); (Kp, [58]); (Kid, [105; 116; 101; 109]); (Kp, [41]); (Kp, [61]); (Kp, [62]); (Kp, [123]); (Kp, [36]); (Kid, [105]); (Kp, [125]); (Kp, [59]); (Kp, [125])].
+(* macro_rules! m { (#[derive(A, B)] $i:item) => { $i }; } *)
+Definition w_mdm_b : list tok :=
+  [(Kid, [109; 97; 99; 114; 111; 95; 114; 117; 108; 101; 115]); (Kp, [33]); (Kid, [109]); (Kp, [123]); (Kp, [40]); (Kp, [35]); (Kp, [91]); (Kid, [100; 101; 114; 105; 118; 101]); (Kp, [40]); (Kid, [65]); (Kp, [44]); (Kid, [66]); (Kp, [41]); (Kp, [93]); (Kp, [36]); (Kid, [105]); (Kp, [58]); (Kid, [105; 116; 101; 109]); (Kp, [41]); (Kp, [61]); (Kp, [62]); (Kp, [123]); (Kp, [36]); (Kid, [105]); (Kp, [125]); (Kp, [59]); (Kp, [125])].
+(* macro_rules! m { ($a:expr; use b; use a;) => { 1 }; } *)
+Definition w_rom_a : list tok :=
+  [(Kid, [109; 97; 99; 114; 111; 95; 114; 117; 108; 101; 115]); (Kp, [33]); (Kid, [109]); (Kp, [123]); (Kp, [40]); (Kp, [36]); (Kid, [97]); (Kp, [58]); (Kid, [101; 120; 112; 114]); (Kp, [59]); (Kid, [117; 115; 101]); (Kid, [98]); (Kp, [59]); (Kid, [117; 115; 101]); (Kid, [97]); (Kp, [59]); (Kp, [41]); (Kp, [61]); (Kp, [62]); (Kp, [123]); (Klit LInt, [49]); (Kp, [125]); (Kp, [59]); (Kp, [125])].
+(* macro_rules! m { ($a:expr; use a; use b;) => { 1 }; } *)
+Definition w_rom_b : list tok :=
+  [(Kid, [109; 97; 99; 114; 111; 95; 114; 117; 108; 101; 115]); (Kp, [33]); (Kid, [109]); (Kp, [123]); (Kp, [40]); (Kp, [36]); (Kid, [97]); (Kp, [58]); (Kid, [101; 120; 112; 114]); (Kp, [59]); (Kid, [117; 115; 101]); (Kid, [97]); (Kp, [59]); (Kid, [117; 115; 101]); (Kid, [98]); (Kp, [59]); (Kp, [41]); (Kp, [61]); (Kp, [62]); (Kp, [123]); (Klit LInt, [49]); (Kp, [125]); (Kp, [59]); (Kp, [125])].
+
+(* the multiset of essential atoms is not preserved by the whole pipeline: merging imports drops duplicates *)
+Lemma essential_multiset_refuted_lemma : exists (o : opts) (a b : list tok),
+  norm o a = norm o b /\ ~ Permutation (ess (atoms_of o a)) (ess (atoms_of o b)).
+Proof.
+  exists o_default, w_dup_a, w_dup_b. split; [vm_compute; reflexivity|].
+  intros H. apply Permutation_length in H. vm_compute in H. discriminate.
+Qed.
+(* the canonical string of a class of imports is ambiguous: head atoms are joined by blanks, and a doc comment
+   contains blanks.  A visibility can move into a doc comment unnoticed *)
+Lemma use_head_ambiguous_refuted_lemma : exists (o : opts) (a b : list tok),
+  norm o a = norm o b /\ In s_pub (atoms_of o b) /\ ~ In s_pub (atoms_of o a).
+Proof.
+  exists o_default, w_doc_a, w_doc_b. split; [vm_compute; reflexivity|]. split.
+  - vm_compute. right. left. reflexivity.
+  - vm_compute. intros H. repeat (destruct H as [H|H]; [discriminate H|]). exact H.
+Qed.
+(* macro matchers are NOT compared verbatim by the whole pipeline: merge_derives and reorder_runs also act inside
+   them (the core pipeline tells the two definitions apart) *)
+Lemma matchers_verbatim_refuted_lemma : exists (o : opts) (a b a' b' : list tok),
+  (norm o a = norm o b /\ norm_core o a <> norm_core o b) /\
+  (norm o a' = norm o b' /\ norm_core o a' <> norm_core o b').
+Proof.
+  exists o_default, w_mdm_a, w_mdm_b, w_rom_a, w_rom_b.
+  split; (split; [vm_compute; reflexivity|vm_compute; discriminate]).
+Qed.
+(* ... and these are exactly the inputs excluded by the hypothesis of norm_sound *)
+Lemma post_safe_fails_lemma : ~ post_safe o_default w_mdm_a.
+Proof.
+  intros [H _]. specialize (H eq_refl). vm_compute in H.
+  destruct H as (_ & _ & _ & H & _). discriminate H.
+Qed.
+
 (* END-OF-PART *)
